@@ -48,9 +48,12 @@ Definition prop_ok (c : case) : bool :=
   match c with
   | CLink l =>
       forallb (fun '(b, r) =>
-        (* no empty batch; Fixed(n): at most n elements per batch *)
+        (* no empty batch; Fixed(n) / Adaptive(n, _): at most n elements per batch *)
         forallb (fun batch => negb (match batch with [] => true | _ => false end) &&
-                              match l_mode l with BFixed n => Nat.leb (length batch) n | BSingle => Nat.eqb (length batch) 1 end)
+                              match l_mode l with
+                              | BFixed n | BAdaptive n _ => Nat.leb (length batch) n
+                              | BSingle => Nat.eqb (length batch) 1
+                              end)
                 (impl_recv l b r) &&
         (* exactly the emitted sequence: for predictable strategies the model's sequence; in
            general a subsequence of the input containing every control element *)
